@@ -155,3 +155,8 @@ def run_thorough(ctx):
 
     # whole-program who-may-call (std and libc included): nothing else in the program reachable from the crate sends signals
     deep_census(ctx, "R10.1", SIGNAL_SENDERS, {"kill": ["posix::kill"]})
+
+    # the cfg(windows) sibling of terminate/kill
+    import winrules
+    winrules.c10_terminate(ctx)
+
